@@ -143,6 +143,17 @@ def interest(ctx, same_symbol=True, period_days=365, sub_second=False):
         else:
             short = Or(avail(bal0, "BTC") < a, avail(bal0, "USD") < out)
         ctx.prove(short, "C11 a repayment is refused only when funds are short")
+        # the refused repayment left the loan as it was: a second attempt is refused for the same reason, cleanly
+        try:
+            run(e.repay_loan(loan.id))
+            ctx.prove(False, "C11 a repayment the account cannot afford is refused every time it is attempted")
+        except errors.Error:
+            pass
+        info2 = run(e.get_loan(loan.id))
+        bal2 = run(e.get_balances())
+        ctx.prove([info2.is_open, info2.outstanding_interest.get("USD", ZERO) == out] +
+                  [avail(bal2, s) == avail(bal0, s) for s in ("USD", "BTC")],
+                  "C11 a refused repayment leaves the loan open with the same outstanding interest")
     try:
         run(e.repay_loan("no-such-loan"))
         ctx.prove(False, "C11 an unknown loan cannot be repaid")
